@@ -48,11 +48,12 @@ def additivity_axioms(table):
             continue
         done.add(ai)
         v2, vv, k, r, ex, ub, w = table.args[ai]
-        if table.keys[ai][4] != 0.0:
+        if table.keys[ai][4] % 2 != 0.0:
             continue                       # exact kernel: singular part is not additive in this simple form
         mid = (v2 + vv) / 2
-        ha = table.atom_for(v2, mid, 1, r, False, 1.0, w, args=(v2.copy(), mid.copy(), 1, r, False, 1.0, w))
-        hb = table.atom_for(mid, vv, 1, r, False, 1.0, w, args=(mid.copy(), vv.copy(), 1, r, False, 1.0, w))
+        th = table.keys[ai][4] >= 2.0
+        ha = table.atom_for(v2, mid, 1, r, False, 1.0, w, args=(v2.copy(), mid.copy(), 1, r, False, 1.0, w), thick=th)
+        hb = table.atom_for(mid, vv, 1, r, False, 1.0, w, args=(mid.copy(), vv.copy(), 1, r, False, 1.0, w), thick=th)
         F, A, B = table.atoms[ai], table.atoms[ha], table.atoms[hb]
         ax.append((F * 2).eq_t(A + B))
     table.ax_done = done
